@@ -129,6 +129,8 @@ class SymRat(object):
 
 
 def int_truediv(a, b):       # noqa: F811  (replaces the placeholder above)
+    if isinstance(b, float) and b == int(b) and b > 0:
+        b = int(b)
     if isinstance(b, int) and not isinstance(b, bool) and b > 0 and isinstance(a, (int, SymInt)):
         return SymRat(a, b)
     raise Inconclusive('true division on a symbolic int by a non-constant is not encoded')
